@@ -193,6 +193,7 @@ type Exec struct {
 	bounded   int // >0: bounded concretisation mode (loop unroll bound)
 	pendingBinds []Value
 	specEval  int
+	safetyOnly bool // only run-time safety obligations are generated (property tag "Cxx:safety")
 	boundedRun bool // bounded stand-in run of a contract with "bounded" clauses
 	boundN    int
 	underBinder int
@@ -334,6 +335,13 @@ func (x *Exec) record(st *State, kind, label, goal string, pos token.Pos, trivia
 	if st.infeasible() {
 		return
 	}
+	if x.safetyOnly {
+		switch kind {
+		case "nil", "idx", "slice", "div0", "assertT", "mapnil", "makeneg", "pre":
+		default:
+			return // proved under the property that owns this unit's functional contract
+		}
+	}
 	base := x.unit + "#" + kind
 	if label != "" {
 		base += ":" + label
@@ -458,7 +466,10 @@ func (x *Exec) elemHeapName(elemT types.Type) (string, string) {
 func (x *Exec) mapHeapNames(mt *types.Map) (pname, psort, vname, vsort string) {
 	ks := x.tc.sortOf(mt.Key())
 	vs := x.tc.sortOf(mt.Elem())
-	base := sanitize(ks) + "$" + sanitize(vs)
+	// one pair of heaps per Go map type (key and element types spelled out): maps of
+	// different types are different objects, so a store into one never reaches the other
+	// (with heaps shared by sort, a map of maps could be "aliased" by one of its own values)
+	base := sanitize(ks) + "$" + sanitize(vs) + "$" + sanitize(types.TypeString(mt.Key(), nil)) + "$" + sanitize(types.TypeString(mt.Elem(), nil))
 	return "MP$" + base, "(Array Int (Array " + ks + " Bool))", "MV$" + base, "(Array Int (Array " + ks + " " + vs + "))"
 }
 
